@@ -367,7 +367,7 @@ int xcm_dns_resolve_sync(struct xcm_addr_host *host, void *log_ref)
 
 	if (query_rc == 1)
 	    break;
-	else if (query < 0 && errno != EAGAIN)
+	else if (query_rc < 0 && errno != EAGAIN)
 	    goto out_query_free;
     }
 
